@@ -52,6 +52,15 @@ pub struct MTask {
     pub terminal_step: Option<u64>,
     /// the task was started at least once in this or an earlier server incarnation
     pub ever_started: bool,
+    /// a start was reported since the task was (re-)queued the last time
+    pub started_since_waiting: bool,
+}
+
+impl MTask {
+    /// Was a start reported for the task since it last became waiting?
+    pub fn ever_started_current_instance(&self) -> bool {
+        self.started_since_waiting
+    }
 }
 
 #[derive(Debug, Clone)]
@@ -307,6 +316,7 @@ impl Model {
                     error: None,
                     terminal_step: None,
                     ever_started: false,
+                    started_since_waiting: false,
                 },
             );
         }
@@ -347,6 +357,7 @@ impl Model {
                             if workers.first() == Some(&w) {
                                 running.push(((*jid, *tid), *instance));
                                 t.state = MState::Waiting;
+                                t.started_since_waiting = false;
                                 if reason_is_failure(*reason) {
                                     t.crash_count += 1;
                                 }
@@ -478,6 +489,7 @@ impl Model {
                         }
                         t.started_instances.push(inst);
                         t.ever_started = true;
+                        t.started_since_waiting = true;
                     }
                 }
             }
